@@ -26,6 +26,11 @@ CHECKS = {
         technique="deterministic simulation: metamorphic replay of one endpoint's recorded inbound stream under seeded chunk/drain partitions with pinned entropy and clock",
         text="A reference run records each endpoint's inbound bytes, application actions and outputs; the endpoint is re-created alone with the same per-node entropy stream and frozen clock and fed the same bytes under byte-at-a-time, record-aligned, "
              "record-straddling, header-split and random partitions with partial-send drain patterns (never across a causality barrier); completion, delivered data, alerts, death and byte-identical output must match. Full, resumed, client-auth and failing handshakes plus data/closure."),
+    "C16": dict(engine="dtls", level="exploration", design="10/C16",
+        technique="deterministic discrete-event simulation: seeded per-datagram drop/duplicate/delay fates, application-style resend timers on a simulated clock, replay of captured datagrams; at-most-once and bounded-liveness oracles",
+        text="DTLS 1.0/1.2 client+server over an event-queue datagram network with 1 s doubling resend timers; per-datagram fates keyed by emission index, replays of every kind of captured record during and after the handshake, tagged application datagrams; "
+             "fixed plans enumerate all single-drop / single-duplicate handshake schedules per cfg and all arrival orders of short application bursts. Oracles: each datagram delivered at most once and equal to a sent one, established sessions survive replays, "
+             "fresh traffic still flows after faults stop, completion within 600 simulated s and 12 timer rounds after the last fault. Two recorded known findings (bumped-epoch final-flight resend)."),
 }
 
 NOT_APPLICABLE = [
